@@ -1,4 +1,4 @@
-import threading
+import itertools
 import warnings
 from collections import defaultdict
 from contextlib import contextmanager
@@ -92,17 +92,17 @@ def find_top_boxed_args(args):
     return top_boxes, top_trace, top_node_type
 
 
-class TraceStack(threading.local):
-    # Trace ids only have to be ordered within one thread (inner traces get larger ids than the
-    # traces enclosing them), so each thread keeps its own depth counter.
+class TraceStack:
+    # A trace needs a larger id than every trace that encloses it - in its own thread or, when a thread
+    # is started inside a traced function, in the thread that started it. Ids therefore come from one
+    # ever-increasing counter shared by all threads and are never reused, so that whatever other
+    # threads do, a trace started later always compares as the inner one.
     def __init__(self):
-        self.top = -1
+        self._ids = itertools.count()
 
     @contextmanager
     def new_trace(self):
-        self.top += 1
-        yield self.top
-        self.top -= 1
+        yield next(self._ids)
 
 
 trace_stack = TraceStack()
